@@ -36,6 +36,7 @@ FEATURE_DEFAULTS = {
     "empty_folder": False,      # a folder with NumUnpackStreams = 0
     "version_minor": 4,
     "trailing": 0,
+    "attr_zero": False,         # some members carry a DEFINED attribute word equal to 0
 }
 
 REF_CHAINS = [
@@ -85,6 +86,7 @@ def gen_case(rng: random.Random, max_len=20000, force=None):
     f["zero_size_stream"] = maybe(0.1)
     f["empty_folder"] = maybe(0.08)
     f["version_minor"] = rng.choice([4, 4, 3, 2])
+    f["attr_zero"] = maybe(0.2)
     if force:
         f.update(force)
     nstream = rng.choice([1, 2, 3, 4, 6])
@@ -222,6 +224,8 @@ def realise(case):
                 attr = 0x20 | 0x400 | 0x8000 | ((0o120000 | 0o777) << 16)
             else:
                 attr = 0x20 | ((0x8000 | ((0o100000 | r.choice([0o644, 0o600, 0o755, 0o444])) << 16)) if f["unix_attr"] else 0)
+                if f.get("attr_zero") and i % 2 == 1:
+                    attr = 0
         if m["kind"] == "symlink" and attr is None:
             attr = 0x20 | 0x400 | 0x8000 | ((0o120000 | 0o777) << 16)  # a symlink is only a symlink through its attribute word
         d["attributes"] = attr
